@@ -394,7 +394,7 @@ def _glue(ctx, py):
                     velocity_n[j, k] = RSym(sp.Symbol("K_v_%d_%d" % (i, k), real=True))
                     for m in range(3):
                         mat_nb[j, k, m] = RSym(sp.Symbol("K_m_%d_%d%d" % (i, k, m), real=True))
-        with rdomain(py, extra=[(S, dict(integrate=kernel)), (S.Integrator, dict(INITIAL_SIZE=4))]):
+        with rdomain(py, extra=[(S, dict(integrate=kernel))] + __import__('props.helpers', fromlist=['capacity_patches']).capacity_patches(py, 4)):
             vals = [RSym(sp.Symbol(n_, real=True)) for n_ in names]
             vals[6], vals[7], vals[8] = deg(RSym(r_)), deg(RSym(p_)), deg(RSym(h_))
             pva = pd.Series(vals, index=names, name=RSym(sp.Symbol("t0", real=True)), dtype=object)
